@@ -238,6 +238,24 @@ def gen_c05(tier, rng):
             found.append(kk)
         kk = (kk + 1) % N
         Q_ = E.add(Q_, Ppk)
+    # t NOT all zero but with bytes that XOR / ADD to zero (a wrong all-zero test that folds the bytes would retry): 2- and 3-byte messages
+    kk = rscalar(rng, 1, N - 1)
+    Q_ = E.mul(kk, Ppk)
+    fold = []
+    while len(fold) < (6 if tier == 'thorough' else 3):
+        t_ = _sm3(Q_[0].to_bytes(32, 'big') + Q_[1].to_bytes(32, 'big') + b'\x00\x00\x00\x01')
+        if t_[0] == t_[1] != 0 and len(fold) % 3 == 0:
+            fold.append((kk, 2))
+        elif t_[0] ^ t_[1] ^ t_[2] == 0 and t_[0] != 0 and len(fold) % 3 == 1:
+            fold.append((kk, 3))
+        elif (t_[0] + t_[1]) % 256 == 0 and t_[0] != 0 and len(fold) % 3 == 2:
+            fold.append((kk, 2))
+        kk = (kk + 1) % N
+        Q_ = E.add(Q_, Ppk)
+    for k0, ml in fold:
+        m_ = rb(rng, ml)
+        yield ('t-bytes-fold-to-zero-crafted', 'sm2_enc %s %s 0 c1c3c2 %s,%s' % (E.enc(Ppk), hx(m_), H(k0), good_k(rng)), None)
+        yield ('t-bytes-fold-to-zero-crafted-rt', 'sm2_ed %s %s 0 c1c3c2 %s,%s' % (H(d), hx(m_), H(k0), good_k(rng)), None)
     for i, k0 in enumerate(found):
         yield ('retry-all-zero-t-crafted', 'sm2_enc %s 5a %d %s %s,%s' % (E.enc(Ppk), i % 2, ['c1c3c2', 'c1c2c3'][i % 2], H(k0), good_k(rng)), None)
         yield ('retry-all-zero-t-crafted-twice', 'sm2_ed %s 5a 0 c1c3c2 %s,%s,%s' % (H(d), H(k0), H(found[(i + 1) % len(found)]), good_k(rng)), None)
@@ -302,6 +320,63 @@ def gen_c06(tier, rng):
         yield ('c1-other-valid-point', base + ' c1 %s' % E.enc(Q, comp == '1'), None)
         yield ('c1-infinity-encoding', base + ' c1 00', None)
         yield ('c1-wrong-format-for-mode', base + ' c1 %s' % E.enc(Q, comp != '1'), None)
+    # a ciphertext that is CONSISTENT (C2, C3 computed independently in Python for the point (0, +-sqrt b)) but whose C1.x is
+    # encoded as p instead of 0 (and, as a control, the honest encoding with x = 0, which must decrypt)
+    from .sm9py import sm3 as _sm3
+    def _kdf(z, n):
+        out, ct = b'', 1
+        while len(out) < n:
+            out += _sm3(z + ct.to_bytes(4, 'big')); ct += 1
+        return out[:n]
+    def _py_ct(d_, C1, m_):
+        """C3, C2 consistent with [d]C1 (the formulas never use b, so C1 may lie on another curve y^2 = x^3 + ax + b')"""
+        x2, y2 = E.mul(d_, C1)
+        t_ = _kdf(x2.to_bytes(32, 'big') + y2.to_bytes(32, 'big'), len(m_))
+        return _sm3(x2.to_bytes(32, 'big') + m_ + y2.to_bytes(32, 'big')), bytes(a ^ b for a, b in zip(m_, t_))
+    for _ in range(4 if tier == 'thorough' else 2):
+        d_ = rscalar(rng, 1, N - 1)
+        m_ = rb(rng, rng.choice([1, 16, 33]))
+        # honest ciphertext computed independently (control), then C3 / C2 altered in TWO bytes with the same mask
+        # (a comparison that folds the differences with XOR would accept)
+        k_ = rscalar(rng, 1, N - 1)
+        C1 = E.mul(k_, E.G)
+        x2, y2 = E.mul(k_, E.mul(d_, E.G))
+        t_ = _kdf(x2.to_bytes(32, 'big') + y2.to_bytes(32, 'big'), len(m_))
+        c3 = _sm3(x2.to_bytes(32, 'big') + m_ + y2.to_bytes(32, 'big'))
+        c2 = bytes(a ^ b for a, b in zip(m_, t_))
+        yield ('python-built-ciphertext-control', 'sm2_dec %s 04%s%s%s%s 0 c1c3c2' % (H(d_), H(C1[0]), H(C1[1]), c3.hex(), c2.hex()), 'OK ' + m_.hex())
+        for (i_, j_) in ((0, 31), (5, 6), (rng.randrange(16), 16 + rng.randrange(16))):
+            mask = rng.randrange(1, 256)
+            c3b = bytearray(c3); c3b[i_] ^= mask; c3b[j_] ^= mask
+            yield ('c3-two-bytes-same-mask', 'sm2_dec %s 04%s%s%s%s 0 c1c3c2' % (H(d_), H(C1[0]), H(C1[1]), bytes(c3b).hex(), c2.hex()), 'ERR')
+        c3b = bytearray(c3)
+        for i_ in range(32):
+            c3b[i_] ^= 0xff
+        yield ('c3-all-bytes-same-mask', 'sm2_dec %s 04%s%s%s%s 0 c1c3c2' % (H(d_), H(C1[0]), H(C1[1]), bytes(c3b).hex(), c2.hex()), 'ERR')
+        # invalid-curve C1 with CONSISTENT C2, C3: a decryptor that does not test curve membership returns a plaintext
+        while True:
+            xi, yi = rng.randrange(1, P), rng.randrange(1, P)
+            if not E.on_curve(xi, yi):
+                break
+        try:
+            c3i, c2i = _py_ct(d_, (xi, yi), m_)
+            yield ('c1-invalid-curve-consistent', 'sm2_dec %s 04%s%s%s%s 0 c1c3c2' % (H(d_), H(xi), H(yi), c3i.hex(), c2i.hex()), 'ERR')
+            yield ('c1-invalid-curve-consistent', 'sm2_dec %s 04%s%s%s%s 0 c1c2c3' % (H(d_), H(xi), H(yi), c2i.hex(), c3i.hex()), 'ERR')
+        except (ValueError, TypeError):
+            pass
+    y0 = E.lift_x(0)
+    if y0 is not None:
+        y0 = y0 if isinstance(y0, int) else y0[1]
+        for yy in (y0, P - y0):
+            d_ = rscalar(rng, 1, N - 1)
+            x2, y2 = E.mul(d_, (0, yy))
+            m_ = rb(rng, 11)
+            t_ = _kdf(x2.to_bytes(32, 'big') + y2.to_bytes(32, 'big'), len(m_))
+            c2 = bytes(a ^ b for a, b in zip(m_, t_))
+            c3 = _sm3(x2.to_bytes(32, 'big') + m_ + y2.to_bytes(32, 'big'))
+            yield ('c1-x=0-consistent-control', 'sm2_dec %s 04%s%s%s%s 0 c1c3c2' % (H(d_), H(0), H(yy), c3.hex(), c2.hex()), 'OK ' + m_.hex())
+            yield ('c1-x=p-consistent', 'sm2_dec %s 04%s%s%s%s 0 c1c3c2' % (H(d_), H(P), H(yy), c3.hex(), c2.hex()), 'ERR')
+            yield ('c1-x=p-consistent', 'pk_new 04%s%s' % (H(P), H(yy)), 'ERR')
     # raw garbage
     for ln in list(range(0, 140, 7)):
         yield ('garbage', 'sm2_dec %s %s %s %s' % (H(rscalar(rng, 1, N - 1)), hx(rb(rng, ln)), rng.choice('01'), rng.choice(['c1c2c3', 'c1c3c2'])), None)
@@ -659,9 +734,14 @@ def gen_c20_sm2(tier, rng):
             if ln <= 64:
                 yield ('sm2-kdf-len', 'sm2_kdf %s %d' % (h, ln), None)
     for v in (0, 1, N - 2, N - 1, N, (1 << 256) - 1):
-        yield ('boundary-keys-sign', 'sm2_sv %s default %s %s' % (H(v), hx(b'm'), good_k(rng)), None)
-        yield ('boundary-keys-encrypt', 'sm2_ed %s %s 0 c1c3c2 %s' % (H(v), hx(b'm'), good_k(rng)), None)
-    yield ('empty-message-encrypt', 'sm2_enc %s - 0 c1c3c2 %s' % (pk, good_k(rng)), None)
+        yield ('terminates-boundary-keys-sign', 'sm2_sv %s default %s %s' % (H(v), hx(b'm'), good_k(rng)), None)
+        yield ('terminates-boundary-keys-encrypt', 'sm2_ed %s %s 0 c1c3c2 %s' % (H(v), hx(b'm'), good_k(rng)), None)
+    # counter / carry extremes of the stream modes (the counter wraps while the data is processed)
+    for iv_, ln in (('ff' * 16, 16), ('ff' * 16, 20), ('ff' * 16, 48), ('ff' * 15 + 'fd', 48), ('ff' * 15 + 'fe', 33), ('00' + 'ff' * 15, 32)):
+        for mode in ('ctr', 'ofb', 'cfb', 'cbc'):
+            for dirn in ('enc', 'dec'):
+                yield ('sm4-mode-counter-wrap', 'sm4mode %s %s %s %s %s' % (mode, dirn, hx(bytes(16)), iv_, hx(rb(rng, ln if dirn == 'enc' or mode != 'cbc' else (ln // 16) * 16))), None)
+    yield ('terminates-empty-message-encrypt', 'sm2_enc %s - 0 c1c3c2 %s' % (pk, good_k(rng)), None)
     for _ in range(3 if tier == 'thorough' else 1):
         for name, der_ in crafted_der_cts(rng):
             yield ('sm2-decrypt-asn1-crafted-' + name.split('-')[0], 'sm2_dec_asn1 %s %s 0 c1c3c2' % (H(d), der_.hex()), None)
